@@ -13,7 +13,10 @@ import collections, concurrent.futures as cf, json, os, random, re
 import vlib
 
 PROG = "tls12"
-DEADLINE_MS = 2000
+# connection deadline: generous where the model says every call returns by itself, short where the model says the client is
+# left waiting for a message that never comes (its call then returns exactly at the deadline)
+DEADLINE_MS, DEADLINE_WAITING_MS = 6000, 1000
+WAITING = ("WaitSH", "WaitCert", "AfterCert", "AfterStatus", "AfterSKE", "AfterCR", "WaitNST", "WaitCCS", "R_WaitNST", "R_WaitCCS")
 # TLS 1.2-only parrots, old and new ones that negotiate 1.2 with a 1.2 server, a PSK parrot, the Go default
 QUICK_IDS = ["Chrome-58", "Firefox-55", "iOS-111", "iOS-14", "Chrome-133", "Firefox-120", "Chrome-100_PSK", "Golang-0"]
 # custom-spec variants: an extension removed from the parrot's spec, another renegotiation policy
@@ -56,7 +59,9 @@ def sample(scns, n, rnd):
     by = collections.defaultdict(list)
     for s in scns:
         by[(s["shape"], tuple(sorted(s["devs"])), s["ccert"] != "", s["conns"][0]["hs"][0]["srv"]["ver"],
-            bool(s["conns"][0]["variant"]) and s["shape"] == "resume")].append(s)
+            bool(s["conns"][0]["variant"]) and s["shape"] == "resume",
+            # the undisturbed scenarios of every client identity (they are the baselines of progress and of the canaries)
+            s["conns"][0]["id"] if not s["devs"] else "")].append(s)
     out, rest = [], []
     for key in sorted(by):
         g = by[key]
@@ -288,7 +293,7 @@ def run(ctx):
         raise vlib.Machinery("vacuous: the model never took the server deviations %r" % missing)
     rnd.shuffle(scns)
     for i, s in enumerate(scns):
-        s["sc"], s["deadline_ms"], s["sni"] = i, DEADLINE_MS, "example.com"
+        s["sc"], s["deadline_ms"], s["sni"] = i, (DEADLINE_WAITING_MS if s["final"] in WAITING else DEADLINE_MS), "example.com"
     byid = {s["sc"]: s for s in scns}
 
     # ---- 2./3./4. replay on the real client, canaries, validation (in batches: the event lists are big)
@@ -379,6 +384,11 @@ def run(ctx):
             if reproduced:
                 break
         if not reproduced:
+            # a call that ran into the transport deadline on the shared machine and completes when run alone is no verdict
+            if all("timeout" in norm(x[3]) for x in rs) and len(rs) * 200 <= len(scns):
+                ctx.note("%d scenario(s) hit the transport deadline in the batch and completed when run alone (machine load): %s" % (len(rs), sig))
+                stats["deadline_artefacts"] += len(rs)
+                continue
             raise vlib.Machinery("rejection %s (%d case(s)) did not reproduce when its scenario was run alone: %r" % (sig, len(rs), rs[0]))
         s, a, evs = reproduced
         brief = [{k: e[k] for k in ("ev", "conn", "h", "call", "t", "k", "mut", "ok", "err", "origin", "stack") if k in e} for e in evs if e["ev"] in ("Ret", "SRet", "SMSG", "CMSG")]
